@@ -93,6 +93,9 @@ func runC15(c *engine.Ctx) {
 				listOp[lf] = op
 			}
 		})
+		if len(listOp) == 0 {
+			registerTable(c, regFn, mgr, isSupport, listOp)
+		}
 		seen := map[string]string{}
 		for lf, op := range listOp {
 			if other, dup := seen[op]; dup {
@@ -329,7 +332,8 @@ func runC15(c *engine.Ctx) {
 						if engine.IsCallTo(in, plugClose) {
 							return "notify"
 						}
-						if cf := engine.CalleeFn(call); cf != nil && cf.Parent() != nil && len(engine.CallsToDeep(cf, plugClose)) > 0 {
+						// a closure, or a same-package function / method (possibly started with `go`), that sends it
+						if cf := engine.CalleeFn(call); cf != nil && cf.Blocks != nil && cf.Pkg == f.Pkg && len(engine.CallsToDeep(cf, plugClose)) > 0 {
 							return "notify"
 						}
 						return ""
@@ -398,6 +402,22 @@ func runC15(c *engine.Ctx) {
 						}
 					}
 					break
+				}
+				if pr, isP := engine.Unwrap(arg).(*ssa.Parameter); isP && host != f {
+					// the helper only forwards a content its caller built: judge the caller's value
+					if hobj, _ := host.Object().(*types.Func); hobj != nil {
+						for i, q := range host.Params {
+							if q != pr {
+								continue
+							}
+							for _, hc := range engine.CallsTo(f, hobj) {
+								if i < len(hc.Common().Args) {
+									arg = hc.Common().Args[i]
+									host = f
+								}
+							}
+						}
+					}
 				}
 				al, ok := engine.Unwrap(arg).(*ssa.Alloc)
 				key := sym + ">content"
@@ -702,4 +722,92 @@ func checkGate(c *engine.Ctx, g *gateInfo, listOp map[*types.Var]string, rejectF
 			return ""
 		}}, "error/reject refuse, Unchange threads, loop exhausts the list")
 	_ = sort.Strings
+}
+
+// registerTable: the table-driven form of Manager.Register — a literal table of {op constant, &m.<list>} rows and one
+// loop `if p.IsSupport(row.op) { *row.list = append(*row.list, p) }`. The rows are evaluated to the same list→op
+// relation the if-chain form yields; the loop is checked once (the append is guarded by IsSupport of the row's op and
+// appends to the row's own list).
+func registerTable(c *engine.Ctx, regFn *ssa.Function, mgr *types.Named, isSupport *types.Func, listOp map[*types.Var]string) {
+	type row struct {
+		op   string
+		list *types.Var
+	}
+	rows := map[ssa.Value]*row{} // element address (IndexAddr) -> row
+	var opField, listField *types.Var
+	engine.ForEachInstr(regFn, func(in ssa.Instruction) {
+		st, ok := in.(*ssa.Store)
+		if !ok {
+			return
+		}
+		fa, ok := st.Addr.(*ssa.FieldAddr)
+		if !ok {
+			return
+		}
+		ia, ok := fa.X.(*ssa.IndexAddr)
+		if !ok {
+			return
+		}
+		stt, ok := engine.Deref(fa.X.Type()).Underlying().(*types.Struct)
+		if !ok || fa.Field >= stt.NumFields() {
+			return
+		}
+		r := rows[ia]
+		if r == nil {
+			r = &row{}
+			rows[ia] = r
+		}
+		if sv, ok := engine.ConstString(st.Val); ok {
+			r.op = sv
+			opField = stt.Field(fa.Field)
+			return
+		}
+		if lf, base := engine.LoadedField(st.Val); lf != nil && base != nil && engine.NamedOf(base.Type()) == mgr {
+			r.list = lf
+			listField = stt.Field(fa.Field)
+		}
+	})
+	if len(rows) == 0 || opField == nil || listField == nil {
+		return
+	}
+	// the loop: one IsSupport(row.op) and one store through row.list guarded by it
+	var sup *ssa.Call
+	for _, cl := range engine.CallsTo(regFn, isSupport) {
+		if cc, ok := cl.(*ssa.Call); ok {
+			if engine.Provenance(cc.Call.Args[0], engine.ProvOpts{}).HasField(opField) {
+				sup = cc
+			}
+		}
+	}
+	okLoop := false
+	if sup != nil {
+		engine.ForEachInstr(regFn, func(in ssa.Instruction) {
+			st, ok := in.(*ssa.Store)
+			if !ok {
+				return
+			}
+			if lf, _ := engine.LoadedField(st.Addr); lf != listField {
+				return // not a store through the row's list pointer
+			}
+			src := engine.Provenance(st.Val, engine.ProvOpts{})
+			if !src.HasField(listField) {
+				return
+			}
+			okLoop = c.AllPaths("pkg/plugin/server.Manager.Register>table-loop", engine.PathCheck{Fn: regFn, Sink: engine.Is(in), KeepLoopFacts: true, Pred: func(ps *engine.PathState) string {
+				if v, k := ps.Truth(func(x ssa.Value) bool { return x == ssa.Value(sup) }); !(k && v) {
+					return "a plugin is appended to a row's list on a path without a successful IsSupport(row.op) test"
+				}
+				return ""
+			}}, "table-driven registration: append to the row's list only under IsSupport of the row's op")
+		})
+	}
+	if !okLoop {
+		return
+	}
+	for _, r := range rows {
+		if r.op != "" && r.list != nil {
+			listOp[r.list] = r.op
+			c.Hold("pkg/plugin/server.Manager.Register>"+r.list.Name(), regFn.Pos(), 1, []string{"table row: " + r.op + " -> " + r.list.Name()}, "append to %s only under IsSupport of its op (table row)", r.list.Name())
+		}
+	}
 }
